@@ -63,4 +63,10 @@ Definition jacobi_chk Ap Aj Ax x b temp (start stop step : Z) (omega : F) : opti
   let rows := loop_idx start stop step in
   temp' <- copy_rows_chk x temp rows ;;
   fold_left (fun ox i => x <- ox ;; jac_row_chk omega Ap Aj Ax b temp' x i) rows (Some x).
+(* gauss_seidel_indexed: the swept rows are Id[start], Id[start+step], ... ; jacobi_indexed: temp is a full copy of x, the
+   swept rows are the entries of the index array *)
+Definition gauss_seidel_indexed_chk Ap Aj Ax x b (Id : list Z) (start stop step : Z) : option (list F) :=
+  fold_left (fun ox ii => x <- ox ;; i <- getZ Id ii ;; gs_row_chk Ap Aj Ax b x i) (loop_idx start stop step) (Some x).
+Definition jacobi_indexed_chk Ap Aj Ax x b (indices : list Z) (omega : F) : option (list F) :=
+  fold_left (fun ox i => x' <- ox ;; jac_row_chk omega Ap Aj Ax b x x' i) indices (Some x).
 End Chk.
